@@ -291,3 +291,9 @@ def c10():
 def c15():
     from . import opt_engine
     return opt_engine.c15()
+
+
+@prop("C19")
+def c19():
+    from . import madx_engine
+    return madx_engine.c19()
